@@ -22,7 +22,11 @@ type evalModel struct {
 	Evaluate  *ssa.Call     // invoke Target.evaluate()
 	Saves     []*ssa.Call
 	Events    map[string][]*ssa.Call // Events method name -> invokes
-	DepData   ssa.Value              // the map that receives the dependencies' stamps
+	DepData   ssa.Value              // the map that receives the dependencies' stamps (as seen in DepsFn)
+	DepsFn    *ssa.Function          // the function containing the dependency loop (Evaluate itself or a helper it calls)
+	DepsSite  *ssa.Call              // in Evaluate: the call to the helper (nil when the loop is in Evaluate)
+	DepDataEv ssa.Value              // the dependency-stamp map as seen in Evaluate (DepData, or a result of the helper call)
+	Helpers   []*ssa.Function        // in-package functions statically called from Evaluate (depth <= 2), excluding saveTargetInfo
 }
 
 func isInvoke(c ssa.CallInstruction, iface, method string) bool {
@@ -79,11 +83,46 @@ func buildEvalModel(p *core.Prog, r *core.Result, rule string) *evalModel {
 			}
 		}
 	}
+	// helpers: in-package static callees of Evaluate (depth <= 2)
+	seenH := map[*ssa.Function]bool{fn: true, save: true}
+	var addHelpers func(f *ssa.Function, depth int)
+	addHelpers = func(f *ssa.Function, depth int) {
+		for _, c := range core.Calls(f) {
+			cal := core.Callee(c)
+			if cal == nil || seenH[cal] || cal.Blocks == nil || cal.Pkg == nil || cal.Pkg != fn.Pkg {
+				continue
+			}
+			seenH[cal] = true
+			m.Helpers = append(m.Helpers, cal)
+			if depth < 2 {
+				addHelpers(cal, depth+1)
+			}
+		}
+	}
+	addHelpers(fn, 1)
+	m.DepsFn = fn
+	if m.DepsCall == nil {
+		for _, h := range m.Helpers {
+			for _, c := range core.Calls(h) {
+				if call, ok := c.(*ssa.Call); ok && isInvoke(c, "Engine", "EvaluateTargets") {
+					m.DepsCall, m.DepsFn = call, h
+				}
+				if call, ok := c.(*ssa.Call); ok && isInvoke(c, "Target", "dependencies") && m.DepLabels == nil {
+					m.DepLabels = call
+				}
+			}
+		}
+		if m.DepsFn != fn {
+			for _, c := range core.CallsTo(fn, m.DepsFn) {
+				m.DepsSite, _ = c.(*ssa.Call)
+			}
+		}
+	}
 	missing := []string{}
 	if m.InfoCall == nil {
 		missing = append(missing, "Target.info()")
 	}
-	if m.DepsCall == nil {
+	if m.DepsCall == nil || (m.DepsFn != fn && m.DepsSite == nil) {
 		missing = append(missing, "Engine.EvaluateTargets()")
 	}
 	if m.UpToDate == nil {
@@ -96,7 +135,7 @@ func buildEvalModel(p *core.Prog, r *core.Result, rule string) *evalModel {
 		missing = append(missing, "saveTargetInfo()")
 	}
 	if len(missing) > 0 {
-		r.Unk(rule, "dawn.(*runTarget).Evaluate#model", p.Pos(fn.Pos()), "Evaluate no longer contains %s: its skeleton is not recognised", strings.Join(missing, ", "))
+		r.Unk(rule, "dawn.(*runTarget).Evaluate#model", p.Pos(fn.Pos()), "Evaluate (and the helpers it calls) no longer contains %s: its skeleton is not recognised", strings.Join(missing, ", "))
 		return nil
 	}
 	// info cell: the local that receives the info() result
@@ -105,15 +144,81 @@ func buildEvalModel(p *core.Prog, r *core.Result, rule string) *evalModel {
 			m.InfoCell = st.Addr
 		}
 	}
-	// depData: a map created in Evaluate that is updated with a value derived from a dependency's runTarget.data
-	core.Instrs(fn, func(in ssa.Instruction) {
+	// depData: a map created in the dependency function that is updated with a value derived from a dependency's runTarget.data
+	core.Instrs(m.DepsFn, func(in ssa.Instruction) {
 		if mu, ok := in.(*ssa.MapUpdate); ok {
 			if core.DependsOn(mu.Value, core.SliceOpts{}, func(v ssa.Value) bool { return core.IsField(v, pkgRoot, "runTarget", "data") }) {
 				m.DepData = mu.Map
 			}
 		}
 	})
+	m.DepDataEv = m.DepData
+	if m.DepsSite != nil && m.DepData != nil {
+		// which result of the helper is the map?
+		for _, ret := range core.ReturnsOf(m.DepsFn) {
+			for i, v := range core.RetVals(ret) {
+				if v == m.DepData {
+					if e := extractOf(m.DepsSite, i); e != nil {
+						m.DepDataEv = e
+					}
+				}
+			}
+		}
+	}
 	return m
+}
+
+// infoParamIn: when the dependency loop lives in a helper, the target info is passed to it as a parameter;
+// returns the helper-side value (parameter or its spill cell) holding the info, or nil.
+func (m *evalModel) infoInDepsFn() ssa.Value {
+	if m.DepsSite == nil {
+		return m.InfoCell
+	}
+	for i, a := range m.DepsSite.Call.Args {
+		isInfo := false
+		if ld, ok := a.(*ssa.UnOp); ok && ld.X == m.InfoCell {
+			isInfo = true
+		}
+		if a == ssa.Value(m.InfoCall) {
+			isInfo = true
+		}
+		if !isInfo || i >= len(m.DepsFn.Params) {
+			continue
+		}
+		prm := m.DepsFn.Params[i]
+		// the spill cell of the parameter, if any
+		var cell ssa.Value
+		core.Instrs(m.DepsFn, func(in ssa.Instruction) {
+			if st, ok := in.(*ssa.Store); ok && st.Val == ssa.Value(prm) {
+				cell = st.Addr
+			}
+		})
+		if cell != nil {
+			return cell
+		}
+		return prm
+	}
+	return nil
+}
+
+// recordedDeps: v is the Dependencies map of the target's info, in Evaluate or in the dependency helper.
+func (m *evalModel) recordedDeps(v ssa.Value) bool {
+	if m.infoField(v, "Dependencies") {
+		return true
+	}
+	info := m.infoInDepsFn()
+	if info == nil {
+		return false
+	}
+	if u, ok := v.(*ssa.UnOp); ok && u.Op == token.MUL {
+		if fa, ok := u.X.(*ssa.FieldAddr); ok && core.IsField(fa, pkgRoot, "targetInfo", "Dependencies") && fa.X == info {
+			return true
+		}
+	}
+	if f, ok := v.(*ssa.Field); ok && core.IsField(f, pkgRoot, "targetInfo", "Dependencies") && f.X == info {
+		return true
+	}
+	return false
 }
 
 // infoField: v is a load of field `name` of the target's info (from the info cell or directly from the call).
